@@ -1146,6 +1146,11 @@ class Interp:
             return False
 
 
+# iteration order used for sets built by interpreted code: 0 source/insertion order, 1 reversed,
+# 2 sorted, 3 reverse-sorted.  Rules that care about hash-seed independence sweep all four.
+SET_ORDER = 0
+
+
 class _OrderedSet(set):
     """A set display evaluated by the interpreter: iteration follows source order
     (any order is possible at run time; rules that depend on order check commutation)."""
@@ -1159,7 +1164,15 @@ class _OrderedSet(set):
                 self._order.append(x)
 
     def __iter__(self):
-        return iter(list(self._order))
+        mode = SET_ORDER
+        if mode == 0:
+            return iter(list(self._order))
+        if mode == 1:
+            return iter(list(reversed(self._order)))
+        try:
+            return iter(sorted(self._order, reverse=(mode == 3)))
+        except TypeError:
+            return iter(list(self._order))
 
     def add(self, x):
         if x not in self:
